@@ -138,6 +138,16 @@ CHECKS['C18'] = dict(
     technique="Coq proof of components (Prettify exactness, kernel-checked table and index sweeps by vm_compute) + exact-text differential check of the whole formatter + round-trip exploration",
     ref="5/C18")
 
+CHECKS['C10'] = dict(
+    text="Proof (partial): the class-trait predicates of CPPStructType (get_virtual_funcs splice/erase/append, is_abstract, is_default/copy_constructible(min_vis), is_destructible, "
+         "after the abstract-base repair) and the C++ rules are one Coq function with a mode; for EVERY class table inside a decidable fragment (no const member without initialiser, "
+         "no C(C&), only public non-deleted destructors, no virtual bases; otherwise arbitrary depth/width/access/members/special members) both modes give the same five traits for "
+         "every class; never a constructor for an abstract class; each excluded shape is refuted by a witness (recorded findings). The Coq C++ rules are validated by g++ std::is_* on "
+         "every generated hierarchy; parse_file -p must equal g++ (spec) and the model (correspondence); exported constructors are read from the database.",
+    note=TB + "C++ abstractness through virtual-base dominance is not modelled (compared with g++ only); =default special members are not generated; g++ 12 traits are the reference.",
+    technique="Coq proof (induction over the class table with pointwise-related environments) + three-way differential check parse_file / extracted model / g++ type traits",
+    ref="5/C10")
+
 PENDING = {
 }
 
